@@ -668,5 +668,241 @@ Proof.
   intros H. destruct (eval_ro_frame n _ _ _ _ H) as [d [Hd H']]. exists d. split; [exact Hd|]. apply (H' []).
 Qed.
 
+
+(* ---- order: the log of a node is the children's contributions, in order, then the operator's ---- *)
+Lemma chain_args c l vs ds c' :
+  chain (eval_mut O) c l vs ds c' -> forall lg, eval_args_mut l c lg = (Ok vs, c', lg ++ concat ds).
+Proof.
+  induction 1 as [c|c x v d c1 l vs ds c2 Hx Hl IHl]; intros lg.
+  - cbn. now rewrite app_nil_r.
+  - rewrite (eval_args_mut_cons_ok _ _ _ _ _ _ _ (eval_mut_from_nil _ _ _ _ _ lg Hx)), IHl.
+    cbn [concat]. rewrite app_assoc. reflexivity.
+Qed.
+
+Lemma args_chain l : forall c lg vs c' lg',
+  eval_args_mut l c lg = (Ok vs, c', lg') ->
+  exists ds, chain (eval_mut O) c l vs ds c' /\ lg' = lg ++ concat ds.
+Proof.
+  induction l as [|x l IHl]; intros c lg vs c' lg' H.
+  - cbn in H. injection H as <- <- <-. exists []. split; [constructor|cbn; now rewrite app_nil_r].
+  - rewrite eval_args_mut_cons in H.
+    destruct (eval_mut O x c lg) as [[[v|e|p] c1] lg1] eqn:Ex; try discriminate H.
+    destruct (eval_args_mut l c1 lg1) as [[[vs'|e|p] c2] lg2] eqn:El; try discriminate H.
+    injection H as <- <- <-.
+    destruct (eval_mut_to_nil _ _ _ _ _ _ Ex) as [d [-> Hd]].
+    destruct (IHl _ _ _ _ _ El) as [ds [Hch ->]].
+    exists (d :: ds). split; [econstructor; eassumption|]. cbn [concat]. now rewrite app_assoc.
+Qed.
+
+Lemma order_mut o ch c lg vs ds c1 :
+  chain (eval_mut O) c ch vs ds c1 ->
+  eval_mut O (Node o ch) c lg = op_eval_mut O o vs c1 (lg ++ concat ds) /\
+  snd (eval_mut O (Node o ch) c lg) = lg ++ concat ds ++ own_log o vs c1.
+Proof.
+  intros Hch. pose proof (chain_args _ _ _ _ _ Hch lg) as Ha.
+  rewrite (eval_mut_node_ok _ _ _ _ _ _ _ Ha). split; [reflexivity|].
+  destruct (op_eval_mut O o vs c1 (lg ++ concat ds)) as [[r c2] lg2] eqn:Eop.
+  destruct (op_eval_mut_frame _ _ _ _ _ _ _ Eop) as [-> _]. cbn [snd]. now rewrite app_assoc.
+Qed.
+
+Lemma order_mut_exists ch c lg vs c1 lg1 :
+  eval_children (eval_mut O) ch c lg = (Ok vs, c1, lg1) ->
+  exists ds, chain (eval_mut O) c ch vs ds c1 /\ lg1 = lg ++ concat ds.
+Proof. rewrite eval_children_args. apply args_chain. Qed.
+
+(* each child is evaluated once: the number of calls of the node is the sum over the children, plus one
+   iff the node is itself a call that reaches a user function *)
+Lemma once_mut o ch c lg vs ds c1 :
+  chain (eval_mut O) c ch vs ds c1 ->
+  length (snd (eval_mut O (Node o ch) c lg)) =
+  (length lg + list_sum (map (@length _) ds) + length (own_log o vs c1))%nat.
+Proof.
+  intros Hch. rewrite (proj2 (order_mut o ch c lg vs ds c1 Hch)), !app_length.
+  assert (Hsum : forall l : list log, length (concat l) = list_sum (map (@length _) l)).
+  { induction l as [|d l IHl]; [reflexivity|]. cbn. rewrite app_length, IHl. reflexivity. }
+  rewrite Hsum. lia.
+Qed.
+
+Lemma call_once f x c lg a c1 lg1 g :
+  eval_mut O x c lg = (Ok a, c1, lg1) -> lookup_function c1 f = Some g ->
+  eval_mut O (Node (OFunctionIdentifier f) [x]) c lg =
+  (fst (call_function O c1 lg1 f a), c1, lg1 ++ [(f, a)]).
+Proof.
+  intros Hx Hg. rewrite eval_mut_node, (eval_args_mut_cons_ok _ _ _ _ _ _ _ Hx). cbn [eval_args_mut].
+  rewrite op_eval_mut_other by reflexivity. rewrite op_eval_call_1, call_function_log, Hg. reflexivity.
+Qed.
+
+(* ---- the first error wins ---- *)
+Lemma first_stop_args pre x post c vs ds c1 s c2 d :
+  chain (eval_mut O) c pre vs ds c1 ->
+  eval_mut O x c1 [] = (stopped s, c2, d) ->
+  forall lg, eval_args_mut (pre ++ x :: post) c lg = (stopped s, c2, lg ++ concat ds ++ d).
+Proof.
+  intros Hch Hx. induction Hch as [c|c y v dy c1 l vs ds c3 Hy Hl IHl]; intros lg.
+  - cbn [app concat]. apply eval_args_mut_cons_stop. apply eval_mut_from_nil. exact Hx.
+  - cbn [app concat].
+    rewrite (eval_args_mut_cons_ok _ _ _ _ _ _ _ (eval_mut_from_nil _ _ _ _ _ lg Hy)).
+    rewrite (IHl Hx). rewrite <- !app_assoc. destruct s; reflexivity.
+Qed.
+
+Lemma first_stop_mut o pre x post c lg vs ds c1 s c2 d :
+  chain (eval_mut O) c pre vs ds c1 ->
+  eval_mut O x c1 [] = (stopped s, c2, d) ->
+  eval_mut O (Node o (pre ++ x :: post)) c lg = (stopped s, c2, lg ++ concat ds ++ d).
+Proof. intros Hch Hx. apply eval_mut_node_stop. eapply first_stop_args; eassumption. Qed.
+
+(* ---- read-only ---- *)
+Lemma chain_ro_args c l vs ds :
+  chain_ro (eval_ro O) c l vs ds -> forall lg, eval_args_ro l c lg = (Ok vs, lg ++ concat ds).
+Proof.
+  induction 1 as [|x v d l vs ds Hx Hl IHl]; intros lg.
+  - rewrite eval_args_ro_nil. cbn. now rewrite app_nil_r.
+  - rewrite (eval_args_ro_cons_ok _ _ _ _ _ _ (eval_ro_from_nil _ _ _ _ lg Hx)), IHl.
+    cbn [concat]. rewrite app_assoc. reflexivity.
+Qed.
+
+Lemma args_chain_ro c l : forall lg vs lg',
+  eval_args_ro l c lg = (Ok vs, lg') ->
+  exists ds, chain_ro (eval_ro O) c l vs ds /\ lg' = lg ++ concat ds.
+Proof.
+  induction l as [|x l IHl]; intros lg vs lg' H.
+  - rewrite eval_args_ro_nil in H. injection H as <- <-. exists []. split; [constructor|cbn; now rewrite app_nil_r].
+  - rewrite eval_args_ro_cons in H.
+    destruct (eval_ro O x c lg) as [[v|e|p] lg1] eqn:Ex; try discriminate H.
+    destruct (eval_args_ro l c lg1) as [[vs'|e|p] lg2] eqn:El; try discriminate H.
+    injection H as <- <-.
+    destruct (eval_ro_to_nil _ _ _ _ _ Ex) as [d [-> Hd]].
+    destruct (IHl _ _ _ El) as [ds [Hch ->]].
+    exists (d :: ds). split; [econstructor; eassumption|]. cbn [concat]. now rewrite app_assoc.
+Qed.
+
+Lemma order_ro o ch c lg vs ds :
+  chain_ro (eval_ro O) c ch vs ds ->
+  eval_ro O (Node o ch) c lg = op_eval O o vs c (lg ++ concat ds) /\
+  snd (eval_ro O (Node o ch) c lg) = lg ++ concat ds ++ own_log o vs c.
+Proof.
+  intros Hch. pose proof (chain_ro_args _ _ _ _ Hch lg) as Ha.
+  rewrite (eval_ro_node_ok _ _ _ _ _ _ Ha). split; [reflexivity|].
+  rewrite op_eval_log. now rewrite app_assoc.
+Qed.
+
+Lemma order_ro_exists ch c lg vs lg1 :
+  eval_children_ro (eval_ro O) ch c lg = (Ok vs, lg1) ->
+  exists ds, chain_ro (eval_ro O) c ch vs ds /\ lg1 = lg ++ concat ds.
+Proof. rewrite eval_children_ro_args. apply args_chain_ro. Qed.
+
+Lemma first_stop_args_ro pre x post c vs ds s d :
+  chain_ro (eval_ro O) c pre vs ds ->
+  eval_ro O x c [] = (stopped s, d) ->
+  forall lg, eval_args_ro (pre ++ x :: post) c lg = (stopped s, lg ++ concat ds ++ d).
+Proof.
+  intros Hch Hx. induction Hch as [|y v dy l vs ds Hy Hl IHl]; intros lg.
+  - cbn [app concat]. apply eval_args_ro_cons_stop. apply eval_ro_from_nil. exact Hx.
+  - cbn [app concat].
+    rewrite (eval_args_ro_cons_ok _ _ _ _ _ _ (eval_ro_from_nil _ _ _ _ lg Hy)).
+    rewrite IHl. rewrite <- !app_assoc. destruct s; reflexivity.
+Qed.
+
+Lemma first_stop_ro o pre x post c lg vs ds s d :
+  chain_ro (eval_ro O) c pre vs ds ->
+  eval_ro O x c [] = (stopped s, d) ->
+  eval_ro O (Node o (pre ++ x :: post)) c lg = (stopped s, lg ++ concat ds ++ d).
+Proof. intros Hch Hx. apply eval_ro_node_stop. eapply first_stop_args_ro; eassumption. Qed.
+
+(* ---- no short-circuit ---- *)
+Lemma binary_mut o a b c lg va c1 lg1 rb c2 lg2 :
+  eval_mut O a c lg = (Ok va, c1, lg1) ->
+  eval_mut O b c1 lg1 = (rb, c2, lg2) ->
+  eval_mut O (Node o [a; b]) c lg =
+  match rb with
+  | Ok vb => op_eval_mut O o [va; vb] c2 lg2
+  | Err e => (Err e, c2, lg2)
+  | Panic p => (Panic p, c2, lg2)
+  end.
+Proof.
+  intros Ha Hb. rewrite eval_mut_node, (eval_args_mut_cons_ok _ _ _ _ _ _ _ Ha).
+  rewrite eval_args_mut_cons, Hb. destruct rb; reflexivity.
+Qed.
+
+Lemma no_shortcircuit_mut o a b c lg x c1 lg1 rb c2 lg2 :
+  o = OAnd \/ o = OOr ->
+  eval_mut O a c lg = (Ok (VBool x), c1, lg1) ->
+  eval_mut O b c1 lg1 = (rb, c2, lg2) ->
+  eval_mut O (Node o [a; b]) c lg =
+  (match rb with Ok vb => fst (op_eval O o [VBool x; vb] c2 lg2) | _ => rb end, c2, lg2).
+Proof.
+  intros Ho Ha Hb. rewrite (binary_mut _ _ _ _ _ _ _ _ _ _ _ Ha Hb).
+  destruct rb as [vb|e|p]; try reflexivity.
+  destruct Ho as [->| ->]; reflexivity.
+Qed.
+
+Lemma binary_ro o a b c lg va lg1 rb lg2 :
+  eval_ro O a c lg = (Ok va, lg1) ->
+  eval_ro O b c lg1 = (rb, lg2) ->
+  eval_ro O (Node o [a; b]) c lg =
+  match rb with
+  | Ok vb => op_eval O o [va; vb] c lg2
+  | Err e => (Err e, lg2)
+  | Panic p => (Panic p, lg2)
+  end.
+Proof.
+  intros Ha Hb. rewrite eval_ro_node, (eval_args_ro_cons_ok _ _ _ _ _ _ Ha).
+  rewrite eval_args_ro_cons, Hb. destruct rb; reflexivity.
+Qed.
+
+Lemma no_shortcircuit_ro o a b c lg x lg1 rb lg2 :
+  o = OAnd \/ o = OOr ->
+  eval_ro O a c lg = (Ok (VBool x), lg1) ->
+  eval_ro O b c lg1 = (rb, lg2) ->
+  eval_ro O (Node o [a; b]) c lg =
+  (match rb with Ok vb => fst (op_eval O o [VBool x; vb] c lg2) | _ => rb end, lg2).
+Proof.
+  intros Ho Ha Hb. rewrite (binary_ro _ _ _ _ _ _ _ _ _ Ha Hb).
+  destruct rb as [vb|e|p]; try reflexivity.
+  destruct Ho as [->| ->]; reflexivity.
+Qed.
+
+(* ---- op-assign reads its target after the right-hand side ---- *)
+Lemma write_leaf x c lg : eval_mut O (Node (OVariableIdentifierWrite x) []) c lg = (Ok (VString x), c, lg).
+Proof. reflexivity. Qed.
+
+Lemma opassign_reads_after_rhs o b x rhs c lg v c1 lg1 :
+  assign_base o = Some b ->
+  eval_mut O rhs c lg = (Ok v, c1, lg1) ->
+  eval_mut O (Node o [Node (OVariableIdentifierWrite x) []; rhs]) c lg =
+  match get_value c1 x with
+  | None => (Err (EVariableIdentifierNotFound x), c1, lg1)
+  | Some old =>
+      match fst (op_eval O b [old; v] c1 lg1) with
+      | Ok res =>
+          match set_value c1 x res with
+          | Ok c2 => (Ok VEmpty, c2, lg1)
+          | Err e => (Err e, c1, lg1)
+          | Panic p => (Panic p, c1, lg1)
+          end
+      | Err e => (Err e, c1, lg1)
+      | Panic p => (Panic p, c1, lg1)
+      end
+  end.
+Proof.
+  intros Hb Hr. rewrite (binary_mut _ _ _ _ _ _ _ _ _ _ _ (write_leaf x c lg) Hr).
+  rewrite (op_eval_mut_opassign _ _ _ _ _ Hb). cbn.
+  destruct (get_value c1 x) as [old|]; [|reflexivity]. cbn.
+  destruct (fst (op_eval O b [old; v] c1 lg1)) as [res|e|p]; reflexivity.
+Qed.
+
+Lemma assign_after_rhs x rhs c lg v c1 lg1 :
+  eval_mut O rhs c lg = (Ok v, c1, lg1) ->
+  eval_mut O (Node OAssign [Node (OVariableIdentifierWrite x) []; rhs]) c lg =
+  match set_value c1 x v with
+  | Ok c2 => (Ok VEmpty, c2, lg1)
+  | Err e => (Err e, c1, lg1)
+  | Panic p => (Panic p, c1, lg1)
+  end.
+Proof.
+  intros Hr. rewrite (binary_mut _ _ _ _ _ _ _ _ _ _ _ (write_leaf x c lg) Hr).
+  rewrite op_eval_mut_assign. cbn. destruct (set_value c1 x v); reflexivity.
+Qed.
+
 (*NEXT*)
 End WithOracle.
